@@ -444,13 +444,56 @@ Proof.
   unfold sum_contrib at 4; cbn [map ssum]. smon.
 Qed.
 
+Lemma sum_contrib_slots T (f : pq -> option qty) ps :
+  sum_contrib T (flat_map (fun p => opt_list (f p)) ps) ≡ ssum (map (fun p => copt T (f p)) ps).
+Proof.
+  induction ps as [|p r IH]; cbn [flat_map map ssum]; [reflexivity|].
+  rewrite sum_contrib_app, IH. reflexivity.
+Qed.
+
+Lemma pick_slot (A : summary) p : ssum (map (fun x => if pq_eqb x p then A else szero) pq_all) ≡ A.
+Proof. destruct p; cbn [pq_all map ssum pq_eqb]; smon. Qed.
+
+Lemma slots_set T (f : pq -> option qty) p s ps :
+  ssum (map (fun x => copt T (if pq_eqb x p then Some s else f x)) ps)
+    ⊕ ssum (map (fun x => if pq_eqb x p then copt T (f p) else szero) ps)
+  ≡ ssum (map (fun x => copt T (f x)) ps)
+    ⊕ ssum (map (fun x => if pq_eqb x p then contrib T s else szero) ps).
+Proof.
+  induction ps as [|x r IH]; cbn [map ssum]; [reflexivity|].
+  destruct (pq_eqb x p) eqn:E.
+  - apply pq_eqb_eq in E. subst x.
+    assert (Hs : copt T (Some s) ≡ contrib T s)
+      by (unfold copt, sum_contrib; cbn [opt_list map ssum]; apply splus_zero_r).
+    rewrite Hs. revert IH. generalize (contrib T s) (copt T (f p)). intros S P.
+    generalize (ssum (map (fun x => copt T (if pq_eqb x p then Some s else f x)) r))
+      (ssum (map (fun x => if pq_eqb x p then P else szero) r))
+      (ssum (map (fun x => copt T (f x)) r))
+      (ssum (map (fun x => if pq_eqb x p then S else szero) r)).
+    intros A B C D IH.
+    transitivity (S ⊕ P ⊕ (A ⊕ B)); [smon|]. rewrite IH. smon.
+  - revert IH. generalize (contrib T s) (copt T (f p)) (copt T (f x)). intros S P X.
+    generalize (ssum (map (fun x => copt T (if pq_eqb x p then Some s else f x)) r))
+      (ssum (map (fun x => if pq_eqb x p then P else szero) r))
+      (ssum (map (fun x => copt T (f x)) r))
+      (ssum (map (fun x => if pq_eqb x p then S else szero) r)).
+    intros A B C D IH.
+    transitivity (X ⊕ (A ⊕ B)); [smon|]. rewrite IH. smon.
+Qed.
+
 Lemma total_set_known T g p s :
   total T (set_known g p s) ⊕ copt T (known g p) ≡ total T g ⊕ contrib T s.
 Proof.
-  unfold total, Group.iter, set_known, copt; cbn [known unknown no_unit other].
-  repeat rewrite sum_contrib_app.
-  destruct p; cbn [pq_all flat_map pq_eqb opt_list]; repeat rewrite sum_contrib_app;
-    rewrite sum_contrib_cons; change (sum_contrib T []) with szero; smon.
+  unfold total, Group.iter, set_known; cbn [known unknown no_unit other].
+  rewrite !sum_contrib_app, !sum_contrib_slots.
+  pose proof (slots_set T (known g) p s pq_all) as H. rewrite !pick_slot in H. revert H.
+  generalize (copt T (known g p)) (contrib T s). intros P S.
+  generalize (ssum (map (fun x => copt T (if pq_eqb x p then Some s else known g x)) pq_all))
+    (ssum (map (fun p0 => copt T (known g p0)) pq_all))
+    (sum_contrib T (map snd (unknown g))) (sum_contrib T (other g))
+    (sum_contrib T (opt_list (no_unit g))).
+  intros A B U O N H.
+  transitivity (A ⊕ P ⊕ (U ⊕ (O ⊕ N))); [smon|]. rewrite H. smon.
 Qed.
 
 Lemma sumU_insert T k s U :
@@ -582,10 +625,10 @@ Proof.
   destruct (find_unit T' kb) as [y|] eqn:Fb; [|reflexivity].
   destruct (pq_eqb (upq x) (upq y)) eqn:E; [|reflexivity].
   destruct (uid y =? uid x)%N; [reflexivity|].
-  apply pq_eqb_eq in E. pose proof (Hf kb y eq_refl (Ha _ _ Fb)) as Hp.
+  apply pq_eqb_eq in E. pose proof (Hf kb y Ub (Ha _ _ Fb)) as Hp.
   apply s_at_known_zero.
-  rewrite (Hp kb y (Ha _ _ Fb) eq_refl), (Hp ka x (Ha _ _ Fa) E).
-  split; cbn [fst snd pzero]; ring.
+  pose proof (Hp kb y (Ha _ _ Fb) eq_refl) as Dy. pose proof (Hp ka x (Ha _ _ Fa) E) as Dx.
+  split; cbn [fst snd pzero]; rewrite Dy, Dx; ring.
 Qed.
 
 Lemma shift_in_free T' T g q : agrees T' T -> q_free T q -> shift_in T' g q ≡ szero.
@@ -634,7 +677,7 @@ Proof.
   assert (Hf' : Forall (q_free T) qs').
   { rewrite Forall_forall in *. intros x Hx. apply Hf. eapply Permutation_in; [symmetry; exact Hp | exact Hx]. }
   destruct (fold_free T qs Hs Hf) as (g & H1 & H2). destruct (fold_free T qs' Hs Hf') as (g' & H3 & H4).
-  exists g, g'. repeat split; auto. rewrite H2, H4. apply sum_contrib_perm, Hp.
+  exists g, g'. split; [exact H1|]. split; [exact H3|]. rewrite H2, H4. apply sum_contrib_perm, Hp.
 Qed.
 
 Lemma merge_free T' T a b :
